@@ -4,7 +4,8 @@
    (country index, bank index, the draws); "the draw matches the country's pattern" enters only as "its upper-cased
    form is clean text". *)
 From Coq Require Import Lia ZArith List Bool.
-From Schwifty Require Import Lib.Base Lib.Lit Model.Clean Model.Data Model.Iban Model.Bban Model.Generate Model.Random.
+From Schwifty Require Import Lib.Base Lib.Lit Model.Clean Model.Data Model.Iban Model.Bban Model.Generate Model.Random
+  Model.Registry Model.Lookup.
 From Schwifty Require Import Spec.Iso13616 Proofs.CleanFacts Proofs.PlaceFacts Proofs.GenerateFacts Proofs.RandomGen Proofs.RandomTotal.
 From Schwifty Require Import Gen.Env Gen.IbanData Gen.IbanCfg Gen.Banks.
 Import ListNotations.
@@ -55,6 +56,21 @@ Theorem C13_iban_pins : forall national cc0 reg pins ci bi draws s cc b r ps,
   field r k s = v.
 Proof. exact gen_random_iban_pins. Qed.
 
+(* a registry-based draw (bank and branch code not pinned) belongs to a listed bank: in a country all of whose registry
+   entries carry a bank code of the width of the bank-identifying field (all_fit: bank code, or bank code followed by
+   branch code), the bank found from the BBAN's own bank-identifying field is a listed bank of that country *)
+Theorem C13_listed_bank : forall cc0 reg pins ci bi draws cc b r ps,
+  reg = true ->
+  random_bban' cc0 reg pins ci bi draws = Ok (cc, b) ->
+  find_row the_table cc = Some r -> r_positions r = Some ps -> all_fit cc = true ->
+  (forall k v, In (k, v) pins -> cleaned the_env v = true) ->
+  (forall d, In d draws -> cleaned the_env (upper the_env d) = true) ->
+  assoc k_bank pins = None -> assoc k_branch pins = None ->
+  (bi < List.length (country_entries the_banks cc))%nat ->
+  exists x, bban_bank the_table (bank_code_entries the_banks) cc b = Ok (Some x) /\ In x the_banks /\ e_cc x = cc
+    /\ bban_lookup_key the_table cc b = Ok (e_code x).
+Proof. exact gen_random_listed. Qed.
+
 (* reproducibility: the model is a function of the arguments and of what the caller's generator and rstr returned;
    nothing else (no hash order, no global state) enters.  The content of this statement is the correspondence check
    (the same oracle outputs fed to model and implementation under several PYTHONHASHSEED values), not this lemma. *)
@@ -69,9 +85,13 @@ Print Assumptions C13_errors.
 Print Assumptions C13_library_errors_only.
 Print Assumptions C13_pins.
 Print Assumptions C13_iban_pins.
+Print Assumptions C13_listed_bank.
 
 From Coq Require Import String.
 Open Scope list_scope.
 Example C13_ex :
   random_bban' (tx "DE") false [(k_bank, tx "37040044")] 0 0 [tx "123456780532013000"] = Ok (tx "DE", tx "370400440532013000").
 Proof. vm_compute. reflexivity. Qed.
+(* the listed-bank theorem is not vacuous: e.g. Germany, the United Kingdom and the Netherlands qualify *)
+Example C13_ex_fit : all_fit (tx "DE") = true /\ all_fit (tx "GB") = true /\ all_fit (tx "NL") = true.
+Proof. repeat split; vm_compute; reflexivity. Qed.
